@@ -245,7 +245,7 @@ def sec_sampling(rec, order=1, corner_safe=False, patches=None, free_axis=None, 
     rp = _replay_sampling(order, shape, corner_safe, quat)
     small = [z3.And(s.e >= 12, s.e <= 40) for s in size] + [z3.And(pp.e >= -60, pp.e <= 100) for pp in pos] + [scale.e >= z3.RealVal("1/4"), scale.e <= 4]
     if shape is None:
-        small += [s.e <= 6 for s in shp]
+        small += [z3.And(s.e >= 3, s.e <= 6) for s in shp]  # at least 3 voxels per axis: the ramp oracle of the replay must see interior voxels
     if quat is None:
         ident = [Rz[i2][j] == (1 if i2 == j else 0) for i2 in range(3) for j in range(3)]
         rot90 = [Rz[0][0] == 1, Rz[0][1] == 0, Rz[0][2] == 0, Rz[1][0] == 0, Rz[1][1] == 0, Rz[1][2] == -1, Rz[2][0] == 0, Rz[2][1] == 1, Rz[2][2] == 0]
